@@ -25,7 +25,7 @@ func RunFlood(seed int64, idx int) *Result {
 	burst := 1050 + rng.Intn(400)
 	desc := fmt.Sprintf("single node, worker parked in RequestNewBlockProposal, %d messages", burst)
 	nd.Start()
-	nd.ML.UpdateState(nd.ctx, nil, nil) // height 1: n00 leads view 0 and parks in RequestNewBlockProposal
+	nd.Sync(nil, nil) // height 1: n00 leads view 0 and parks in RequestNewBlockProposal
 	for i := 0; i < 20000 && atomic.LoadInt32(&g.parked) == 0; i++ {
 		time.Sleep(100 * time.Microsecond)
 	}
@@ -46,7 +46,7 @@ func RunFlood(seed int64, idx int) *Result {
 	}
 	ok := make(chan struct{})
 	go func() {
-		nd.ML.UpdateState(nd.ctx, &spi.Blk{H: 1, Body: "synced"}, nil)
+		nd.Sync(&spi.Blk{H: 1, Body: "synced"}, nil)
 		close(ok)
 	}()
 	select {
@@ -81,7 +81,7 @@ func RunSyncStorm(seed int64, idx int) *Result {
 	total := 12000 + rng.Intn(6000)
 	desc := fmt.Sprintf("node %s, %d UpdateState calls from two callers, junk traffic and state readers alongside", nd.Id, total)
 	nd.Start()
-	nd.ML.UpdateState(nd.ctx, nil, nil)
+	nd.Sync(nil, nil)
 	stop := make(chan struct{})
 	for k := 0; k < 2; k++ { // readers of the observable state (what a host's monitoring does)
 		go func() {
@@ -120,7 +120,7 @@ func RunSyncStorm(seed int64, idx int) *Result {
 					progress <- 0
 					return
 				}
-				nd.ML.UpdateState(nd.ctx, &spi.Blk{H: h, Body: "storm"}, nil)
+				nd.Sync(&spi.Blk{H: h, Body: "storm"}, nil)
 				for {
 					old := atomic.LoadUint64(&highest)
 					if h <= old || atomic.CompareAndSwapUint64(&highest, old, h) {
